@@ -17,6 +17,8 @@ ASSUMPTIONS = ["ET.TreeBuilder.start/end/close build the tree they are told to b
 def run(project, rep):
     rep.run(P.p_rules, project, rep)
     rep.run(P.p_r6_every_match_dispatched, project, rep)
+    rep.run(P.p_r7_every_match_fed, project, rep)
+    rep.run(P.x_rules, project, rep)
     from .. import rules_header as H
     rep.rule("P-R5", "what reaches the tokenizer is the whole decoded body: parse_header hands the remainder of the source over uncut (H-R1), so stray text after the last end tag is still there to be refused")
     rep.run(H.h_r1, project, rep)
